@@ -1,6 +1,7 @@
 (* C05 property theorems (statements only; proofs are `exact`/short compositions of Proofs.v lemmas). *)
 From Coq Require Import ZArith List Bool Arith Lia.
 From EP Require Import C05.Model C05.Proofs.
+From EP Require Gen.C05Shape.
 Import ListNotations.
 Open Scope Z_scope.
 
@@ -73,3 +74,9 @@ Example C05_nonvacuous :
                                    (ESeq (EVar 0) (EQuant true 0 (ELit [0; 3]) (EVar 0)))) in
   wf e = true /\ option_map fst (impl e 0 [[(2%nat, [100])]]) = Some [2; 101; 4; 102; 5; 1].
 Proof. vm_compute. split; reflexivity. Qed.
+
+(* the statements of /repo that the hand model mirrors are present in the source as read on this run (T-data,
+   harness/shape.py -> Gen/C05Shape.v) *)
+Theorem C05_source_shape : Gen.C05Shape.shape_ok = true.
+Proof. reflexivity. Qed.
+Print Assumptions C05_source_shape.
